@@ -38,7 +38,7 @@ func TestC15(t *testing.T) {
 		twoAEADs bool
 	}
 	var jobs []job
-	n := mon.Pick(6, 400)
+	n := mon.Pick(6, 2500)
 	for _, tg := range targets {
 		for _, aead := range []uint16{1, 2, 3} {
 			for _, b := range []string{"accept", "accept-hrr", "reject"} {
